@@ -218,8 +218,23 @@ func init() {
 	register(&PropDef{
 		ID: "C09",
 		Gen: func(t *rapid.T, tier string) *world.Plan {
-			return genPlan(t, genOpts{maxCrashes: 1, sched: true, duration: []int{300},
+			p := genPlan(t, genOpts{maxCrashes: 1, sched: true, duration: []int{300},
 				inject: []string{"request-in", "request-out", "agreement-in", "agreement-out", "opening", "cancel", "coop"}, maxInject: 3})
+			if rapid.IntRange(0, 2).Draw(t, "twin") == 0 {
+				// a third party's request with the same id, on its own channel, arrives within the
+				// same instant as the genuine request: both are handled concurrently
+				p.Scn.Channels = append(p.Scn.Channels, world.ChannelCfg{Block: 200, Tx: 2, Out: 0, A: 0, B: 2, BalA: 2_000_000_000, BalB: 2_000_000_000},
+					world.ChannelCfg{Block: 201, Tx: 2, Out: 0, A: 1, B: 2, BalA: 2_000_000_000, BalB: 2_000_000_000})
+				p.Adv = append(p.Adv, world.AdvMove{Kind: "twin", N: pick(t, "twindelay", []int64{0, 0, 0, -1, 1, 5}), Arg: pick(t, "twintype", []string{"", "", "other-type"})})
+				for i := range p.Scn.Flavor {
+					p.Scn.Flavor[i] = pick(t, "twinflavor", []string{"cln", "cln", "lnd"})
+				}
+				if p.SchedSeed == 0 {
+					p.SchedSeed = rapid.Uint64Range(1, 1<<32).Draw(t, "twinsched")
+					p.SchedRate = pick(t, "twinrate", []int{100, 300, 500})
+				}
+			}
+			return p
 		},
 		Monitors:   world.MonitorsFor("C09"),
 		Nontrivial: func(r *world.Result) bool { return probe(r, "C09:delivered") },
